@@ -15,11 +15,19 @@ open Conc
 /-- the state the probe starts from: nothing patched, locks free, all pages r-x -/
 abbrev start := init (fun _ => Content.pristine)
 
+/-! The theorems below start from ANY quiet state `s0` (`Conc.Quiet`: no lock held, no thread inside a section, pages
+    executable) — in particular from a state in which a steady builder has already mocked the functions the callers
+    call.  `Disjoint prog` then speaks about the threads that run concurrently (builders + callers); the steady mocks
+    live in `s0`, not in `prog`, so callers of MOCKED functions are inside the universe of every theorem.
+    `quiet_start` instantiates them for the empty start state. -/
+
+theorem quiet_start : Quiet start := quiet_init _
+
 /-- **mutual exclusion of `patchesLock`** (patch.go:18): in every reachable state at most one thread is inside a
     `replaceFunc`/`Apply`/`UnpatchWithLock` section, and it is the lock holder. -/
-theorem mutex_patchesLock (L prog) (σ : List Tid) (t u : Tid)
-    (ht : ((run L prog σ start).th t).cur.isSome = true) (hu : ((run L prog σ start).th u).cur.isSome = true) : t = u := by
-  have I := LInv_run L prog σ start (LInv_init prog _)
+theorem mutex_patchesLock (L prog) (s0 : St) (hq : Quiet s0) (σ : List Tid) (t u : Tid)
+    (ht : ((run L prog σ s0).th t).cur.isSome = true) (hu : ((run L prog σ s0).th u).cur.isSome = true) : t = u := by
+  have I := LInv_run L prog σ s0 (LInv_of_quiet prog hq)
   have a := I.mp t ht
   have b := I.mp u hu
   rw [a] at b; injection b
@@ -27,10 +35,10 @@ theorem mutex_patchesLock (L prog) (σ : List Tid) (t u : Tid)
 /-- **mutual exclusion of `memoryAccessLock`** (memory.go:12): at most one thread is inside the three-phase
     `WriteTo` script, and that thread also holds `patchesLock` — so thread A's final `mprotect(RX)` can never
     interleave with thread B's `copy`, even when both targets lie on one page. -/
-theorem mutex_memoryLock (L prog) (σ : List Tid) (t u : Tid)
-    (ht : ((run L prog σ start).th t).w.isSome = true) (hu : ((run L prog σ start).th u).w.isSome = true) :
-    t = u ∧ (run L prog σ start).lockP = some t := by
-  have I := LInv_run L prog σ start (LInv_init prog _)
+theorem mutex_memoryLock (L prog) (s0 : St) (hq : Quiet s0) (σ : List Tid) (t u : Tid)
+    (ht : ((run L prog σ s0).th t).w.isSome = true) (hu : ((run L prog σ s0).th u).w.isSome = true) :
+    t = u ∧ (run L prog σ s0).lockP = some t := by
+  have I := LInv_run L prog σ s0 (LInv_of_quiet prog hq)
   have a := (I.mm t ht).1
   have b := (I.mm u hu).1
   rw [a] at b; injection b with b
@@ -41,15 +49,17 @@ theorem mutex_memoryLock (L prog) (σ : List Tid) (t u : Tid)
     `memoryAccessLock`; every read of text bytes happens while no other thread holds `memoryAccessLock`.
     (A statement about the model's enumeration of shared state; fields the model does not list are covered by the
     race detector only.) -/
-theorem lockset (L prog) (σ : List Tid) :
-    ∀ a ∈ (run L prog σ start).acc, a.holdsP = true ∧ (a.v ≠ Var.patches → a.holdsM = true) :=
-  (LInv_run L prog σ start (LInv_init prog _)).accOk
+theorem lockset (L prog) (s0 : St) (hq : Quiet s0) (σ : List Tid) :
+    ∀ a ∈ (run L prog σ s0).acc, a.holdsP = true ∧ (a.v ≠ Var.patches → a.holdsM = true) :=
+  (LInv_run L prog σ s0 (LInv_of_quiet prog hq)).accOk
 
 /-- **x_always**: in every intermediate state of every interleaving every page is executable — WriteTo goes
-    r-x → rwx → r-x and never through a state without x (mwrite_amd64.go:24,32). -/
-theorem x_always (L prog) (σ : List Tid) (pg : Nat) : ((run L prog σ start).perm pg).x = true := by
-  have I : CInv L prog start start := ⟨fun _ => rfl, fun _ _ => rfl, by simp [init]⟩
-  exact (CInv_run L prog σ start start (fun _ => rfl) I).x pg
+    r-x → rwx → r-x and never through a state without x (mwrite_amd64.go:24,32).  The protections are DATA of the
+    model's script (`Conc.wscript`: `permRWX`, `permRX`; a script containing a protection without x is expressible and
+    would falsify this theorem — `Conc.wscript_x` is the lemma about the script); the source tie is the skeleton token
+    `mprotect-RWX`/`mprotect-RX` (emitted only when the Go call text names PROT_EXEC) and the strace lane. -/
+theorem x_always (L prog) (s0 : St) (hq : Quiet s0) (σ : List Tid) (pg : Nat) : ((run L prog σ s0).perm pg).x = true :=
+  XInv_run L prog σ s0 hq.x pg
 
 /-- **steady_calls**: start from ANY state `s0` with executable pages (e.g. after a steady builder has mocked `f`).
     Every call of a location `f` that no thread of the schedule writes (nor its placeholder) returns, in every
@@ -83,64 +93,57 @@ theorem others_frame (L prog) (hd : Disjoint L prog) (t : Tid) (σ : List Tid) (
 /-- **isolation**: for every schedule and every thread `t`, the patch-table entries and the text of all locations
     `t` mentions, and `t`'s own control state, are exactly those of a run in which ONLY `t` was scheduled (`solo`), for
     some number `n` of slots — i.e. the projection of any interleaved run on a thread's targets equals its sequential
-    run; the other builders (and callers) are invisible to it. -/
-theorem isolation (L prog) (hd : Disjoint L prog) (t : Tid) (σ : List Tid) :
-    ∃ n, (run L prog σ start).th t = (solo L prog t n start).th t ∧
-      ∀ f, Mentions L prog t f →
-        (run L prog σ start).text f = (solo L prog t n start).text f ∧
-        (run L prog σ start).patches f = (solo L prog t n start).patches f := by
-  have A : Agree L prog t start start :=
-    ⟨rfl, fun _ _ => ⟨rfl, rfl⟩, fun _ => rfl, fun _ => rfl, LInv_init prog _, LInv_init prog _, Or.inl rfl, Or.inl rfl⟩
-  obtain ⟨n, h⟩ := solo_sim L prog hd t σ start start A
-  exact ⟨n, h.th, h.loc⟩
+    run; the other builders (and callers) are invisible to it.  The last conjunct: the RESULTS of all calls thread `t`
+    made so far (the stream `B1=[…]` the differential run compares) are exactly those of its solo run. -/
+theorem isolation (L prog) (hd : Disjoint L prog) (s0 : St) (hq : Quiet s0) (t : Tid) (σ : List Tid) :
+    ∃ n, (run L prog σ s0).th t = (solo L prog t n s0).th t ∧
+      (∀ f, Mentions L prog t f →
+        (run L prog σ s0).text f = (solo L prog t n s0).text f ∧
+        (run L prog σ s0).patches f = (solo L prog t n s0).patches f) ∧
+      callsOf t (run L prog σ s0) = callsOf t (solo L prog t n s0) := by
+  obtain ⟨n, h, hc⟩ := solo_sim_calls L prog hd t σ s0 s0 (Agree_of_quiet L prog t hq) rfl
+  exact ⟨n, h.th, h.loc, hc⟩
 
 /-- **quiescence transfers**: if every thread's own sequential run, once finished, leaves the locations it writes
     pristine (a schedule-free fact about each builder alone: it resets what it mocked — property C02; the driver
     evaluates it for every generated round; `Target` separates mocked functions from origin placeholders, whose bodies
     goom never restores), then in EVERY interleaving in which all threads have finished every
-    written location is pristine and both locks are free. -/
-theorem quiescent_restored (L prog) (hd : Disjoint L prog) (Target : Loc → Prop)
-    (hseq : ∀ t n, done prog (solo L prog t n start) t → ∀ f, Target f → Writes L prog t f → (solo L prog t n start).text f = .pristine)
-    (σ : List Tid) (hq : ∀ t, done prog (run L prog σ start) t) :
-    (∀ t f, Target f → Writes L prog t f → (run L prog σ start).text f = .pristine) ∧
-    (run L prog σ start).lockP = none ∧ (run L prog σ start).lockM = none := by
-  have I := LInv_run L prog σ start (LInv_init prog _)
-  refine ⟨?_, ?_, ?_⟩
-  · intro t f htg hw
-    obtain ⟨n, hth, hloc⟩ := isolation L prog hd t σ
-    obtain ⟨sec, hsec, hf⟩ := hw
-    have hm : Mentions L prog t f := ⟨sec, hsec, writes_sub_mentions L sec f hf⟩
-    rw [(hloc f hm).1]
-    refine hseq t n ?_ f htg ⟨sec, hsec, hf⟩
-    have := hq t
-    simp only [done] at this ⊢
-    rw [← hth]; exact this
-  · cases h : (run L prog σ start).lockP with
-    | none => rfl
-    | some u => have := I.mpc u h; rw [(hq u).2] at this; simp at this
-  · cases h : (run L prog σ start).lockM with
-    | none => rfl
-    | some u =>
-      have h1 := I.mmc u h
-      have h2 := (I.mm u h1).2
-      rw [(hq u).2] at h2; simp at h2
+    written location is pristine and the state is quiet again (both locks free, nobody inside a section). -/
+theorem quiescent_restored (L prog) (hd : Disjoint L prog) (s0 : St) (hq0 : Quiet s0) (Target : Loc → Prop)
+    (hseq : ∀ t n, done prog (solo L prog t n s0) t → ∀ f, Target f → Writes L prog t f → (solo L prog t n s0).text f = .pristine)
+    (σ : List Tid) (hq : ∀ t, done prog (run L prog σ s0) t) :
+    (∀ t f, Target f → Writes L prog t f → (run L prog σ s0).text f = .pristine) ∧ Quiet (run L prog σ s0) := by
+  have I := LInv_run L prog σ s0 (LInv_of_quiet prog hq0)
+  refine ⟨?_, quiet_of_idle I (XInv_run L prog σ s0 hq0.x) (fun t => (hq t).2)⟩
+  intro t f htg hw
+  obtain ⟨n, hth, hloc, _⟩ := isolation L prog hd s0 hq0 t σ
+  obtain ⟨sec, hsec, hf⟩ := hw
+  have hm : Mentions L prog t f := ⟨sec, hsec, writes_sub_mentions L sec f hf⟩
+  rw [(hloc f hm).1]
+  refine hseq t n ?_ f htg ⟨sec, hsec, hf⟩
+  have := hq t
+  simp only [done] at this ⊢
+  rw [← hth]; exact this
 
 /-- **quiescence, unconditional for the generator's program class**: every thread is either a builder running
     `builderProg tg ops` — ANY sequence of builder operations (`mock` with Return / table / callback / callback calling
     the origin placeholder, re-stub of an already mocked target, `chk`, intermediate `reset`s, double resets) followed by
     `reset` and a final check (`builderProg_eq`: exactly what `ops ++ [reset, chk]` compiles to) — or a caller (only
-    `call` sections).  Then in EVERY interleaving in which all threads have finished, every mocked function (every
-    written location that is not an origin placeholder) is pristine and both locks are free.  The sequential hypothesis
+    `call` sections); the start is ANY quiet state `s0` in which the sequential fact `JAt` holds (e.g. `start`, or the
+    state after a steady builder's mocks: `JAt_after_solo`) and no thread has begun.  Then in EVERY interleaving in which
+    all threads have finished, every location they wrote that is not an origin placeholder is pristine and the state is
+    quiet again (both locks free).  The sequential hypothesis
     of `quiescent_restored` is discharged by `Conc.seq_restored` (an invariant over the micro steps of a solo run). -/
-theorem quiescent_restored_builders (L prog) (hd : Disjoint L prog)
+theorem quiescent_restored_builders (L prog) (hd : Disjoint L prog) (s0 : St) (hq0 : Quiet s0)
+    (hj : JAt (fun f => ∀ g, L.plh g ≠ f) s0) (hip : ∀ t, (s0.th t).ip = 0)
     (hcls : ∀ t, (∃ tg ops, prog t = builderProg tg ops) ∨ (∀ sec ∈ prog t, ∃ f a, sec = Sec.call f a))
-    (σ : List Tid) (hq : ∀ t, done prog (run L prog σ start) t) :
-    (∀ t f, (∀ g, L.plh g ≠ f) → Writes L prog t f → (run L prog σ start).text f = .pristine) ∧
-    (run L prog σ start).lockP = none ∧ (run L prog σ start).lockM = none := by
-  refine quiescent_restored L prog hd (fun f => ∀ g, L.plh g ≠ f) ?_ σ hq
+    (σ : List Tid) (hq : ∀ t, done prog (run L prog σ s0) t) :
+    (∀ t f, (∀ g, L.plh g ≠ f) → Writes L prog t f → (run L prog σ s0).text f = .pristine) ∧ Quiet (run L prog σ s0) := by
+  refine quiescent_restored L prog hd s0 hq0 (fun f => ∀ g, L.plh g ≠ f) ?_ σ hq
   intro t n hdone f hT hw
   rcases hcls t with ⟨tg, ops, hp⟩ | hc
-  · refine seq_restored (Target := fun f => ∀ g, L.plh g ≠ f) (T := (compileOps tg ops []).length) (fun f g h => h g) ?_ ?_ n hdone f hT hw
+  · refine seq_restored_from (Target := fun f => ∀ g, L.plh g ≠ f) (T := (compileOps tg ops []).length) (fun f g h => h g) ?_ ?_ hq0 hj
+      (by rw [hip t]; exact Nat.zero_le _) n hdone f hT hw
     · intro i sec hi h; rw [hp] at h; exact builder_tail tg ops i sec hi h
     · intro f hT ⟨sec, hs, hf⟩
       have := builder_cover L tg ops f hT ⟨sec, hp ▸ hs, hf⟩
@@ -148,6 +151,47 @@ theorem quiescent_restored_builders (L prog) (hd : Disjoint L prog)
   · obtain ⟨sec, hs, hf⟩ := hw
     obtain ⟨g, a, rfl⟩ := hc sec hs
     simp [writesOf] at hf
+
+/-- **phase 1 → the sequential fact**: after ANY builder program has run alone from a quiet state in which `JAt`
+    holds (e.g. the steady builder's mocks from `start`), `JAt` holds again for every location that is not an origin
+    placeholder: saved origin bytes are pristine, and a registered-but-unapplied patch sits on pristine text. -/
+theorem JAt_after_solo (L : Layout) (prog : Tid → List Sec) (t : Tid) (s0 : St) (hq : Quiet s0)
+    (hj : JAt (fun f => ∀ g, L.plh g ≠ f) s0) (hip : (s0.th t).ip ≤ (prog t).length) (n : Nat) :
+    JAt (fun f => ∀ g, L.plh g ≠ f) (solo L prog t n s0) := by
+  refine JAt_solo (T := (prog t).length) (fun f g h => h g) ?_ hq hj hip n
+  intro i sec hi h
+  rw [List.getElem?_eq_none hi] at h; cases h
+
+/-- **the steady builder's targets are restored too** (three phases, the universe of the differential rounds):
+    `s0` is any quiet state with the sequential fact (phase 1: the steady builder has mocked `fs`); phase 2 is ANY
+    interleaving `σ` of a `Disjoint` system `prog2` of builders and callers in which nobody writes `fs` (callers may call
+    them), run until all its threads are done; phase 3 is the steady builder `S` resetting: `fs.map unpatch` run alone.
+    Then every function in `fs` is pristine. -/
+theorem steady_targets_restored (L : Layout) (prog2 prog3 : Tid → List Sec) (s0 : St) (hq0 : Quiet s0)
+    (hj : JAt (fun f => ∀ g, L.plh g ≠ f) s0) (σ : List Tid) (hq : ∀ t, done prog2 (run L prog2 σ s0) t)
+    (S : Tid) (fs : List Loc) (hS : prog3 S = fs.map Sec.unpatch) (hnw : ∀ f ∈ fs, ∀ u, ¬ Writes L prog2 u f)
+    (hip : ((run L prog2 σ s0).th S).ip = 0) (n : Nat)
+    (hdone : done prog3 (solo L prog3 S n (run L prog2 σ s0)) S) :
+    ∀ f ∈ fs, (∀ g, L.plh g ≠ f) → (solo L prog3 S n (run L prog2 σ s0)).text f = .pristine := by
+  intro f hf hT
+  have I := LInv_run L prog2 σ s0 (LInv_of_quiet prog2 hq0)
+  have q1 : Quiet (run L prog2 σ s0) := quiet_of_idle I (XInv_run L prog2 σ s0 hq0.x) (fun t => (hq t).2)
+  have j1 : JAt (fun f => f ∈ fs ∧ ∀ g, L.plh g ≠ f) (run L prog2 σ s0) := by
+    intro g ⟨hg, hgT⟩
+    have fr := nowriter_frame_run L prog2 σ s0 g (hnw g hg)
+    rw [fr.1, fr.2]; exact hj g hgT
+  refine seq_restored_from (L := L) (prog := prog3) (t := S) (Target := fun f => f ∈ fs ∧ ∀ g, L.plh g ≠ f) (T := 0)
+    (fun f g h => h.2 g) ?_ ?_ q1 j1 (by rw [hip]; exact Nat.le_refl 0) n hdone f ⟨hf, hT⟩ ?_
+  · intro i sec _ h
+    rw [hS] at h
+    have hm := List.mem_of_getElem? h
+    simp only [List.mem_map] at hm
+    obtain ⟨g, _, rfl⟩ := hm
+    exact Or.inl ⟨g, rfl⟩
+  · intro g ⟨hg, _⟩ _
+    obtain ⟨j, hj', hje⟩ := List.getElem_of_mem hg
+    exact ⟨j, Nat.zero_le _, by rw [hS]; simp [hj', hje]⟩
+  · exact ⟨Sec.unpatch f, by rw [hS]; exact List.mem_map.2 ⟨f, hf, rfl⟩, by simp [writesOf]⟩
 
 /-- the class is what the generator emits: a program ending in `reset ; chk` -/
 theorem builderProg_is_generated (tg : List Loc) (ops : List BOp) :
@@ -179,12 +223,12 @@ theorem copy_is_not_atomic_at_byte_level :
     origin placeholder — provided targets are disjoint.  The threads of the model therefore never execute a torn entry;
     what remains outside the model (and is only stress-tested) is hardware-level fetch: speculative/prefetched
     instruction bytes of a neighbouring function on the same cache line, and cross-modifying-code visibility rules. -/
-theorem write_excludes_calls (L prog) (hd : Disjoint L prog) (σ : List Tid) (u : Tid)
-    (hu : ((run L prog σ start).th u).w.isSome = true) :
-    ∃ sec k wk, (prog u)[((run L prog σ start).th u).ip]? = some sec ∧ ((run L prog σ start).th u).cur = some k ∧
+theorem write_excludes_calls (L prog) (hd : Disjoint L prog) (s0 : St) (hq : Quiet s0) (σ : List Tid) (u : Tid)
+    (hu : ((run L prog σ s0).th u).w.isSome = true) :
+    ∃ sec k wk, (prog u)[((run L prog σ s0).th u).ip]? = some sec ∧ ((run L prog σ s0).th u).cur = some k ∧
       (bodyOf sec)[k]? = some (MI.write wk) ∧
-      ∀ t f a, (prog t)[((run L prog σ start).th t).ip]? = some (Sec.call f a) → f ≠ wloc L wk ∧ L.plh f ≠ wloc L wk := by
-  have I := LInv_run L prog σ start (LInv_init prog _)
+      ∀ t f a, (prog t)[((run L prog σ s0).th t).ip]? = some (Sec.call f a) → f ≠ wloc L wk ∧ L.plh f ≠ wloc L wk := by
+  have I := LInv_run L prog σ s0 (LInv_of_quiet prog hq)
   obtain ⟨sec, k, wk, h1, h2, h3⟩ := I.wpos u hu
   refine ⟨sec, k, wk, h1, h2, h3, ?_⟩
   intro t f a ht
@@ -229,6 +273,38 @@ example : (∀ u, ¬ Writes exLayout exProg u 3) ∧ (∀ u, ¬ Writes exLayout 
         first | (exfalso; exact hw) | (rcases hw with hw | hw <;> simp at hw) | simp at hw
     | u + 3 => simp [exProg] at hs
 
+/-- a quiet state in which a steady builder HAS mocked target 3 with `Return(9)`: the universe of the theorems above
+    contains callers of mocked functions -/
+def exMocked : St :=
+  { start with patches := upd start.patches 3 (some { repl := .ret 9, originBytes := .pristine, applied := true }),
+               text := upd start.text 3 (.jump (.ret 9)) }
+
+example : Quiet exMocked ∧ JAt (fun f => ∀ g, exLayout.plh g ≠ f) exMocked := by
+  refine ⟨by constructor <;> simp [exMocked, init, XInv, AccOk], ?_⟩
+  intro f _
+  by_cases h : f = 3
+  · subst h; simp [exMocked, upd]
+  · simp [exMocked, upd, h, init]
+
+/-- in EVERY interleaving of the example builders and the caller, each call of the steadily mocked target 3 returns the
+    mocked 9 (not the original 4*7+3) -/
+example (σ : List Tid) (t ip : Nat) (res : Option Nat) (h : (t, ip, res) ∈ (run exLayout exProg σ exMocked).calls)
+    (h3 : ∃ a, (exProg t)[ip]? = some (Sec.call 3 a)) : res = some 9 := by
+  obtain ⟨f, a, hf, hres⟩ := steady_calls exLayout exProg σ exMocked (fun _ => rfl) rfl t ip res h
+  obtain ⟨a', ha'⟩ := h3
+  rw [ha'] at hf; injection hf with hf; injection hf with hf1 hf2; subst hf1
+  have nw : (∀ u, ¬ Writes exLayout exProg u 3) ∧ (∀ u, ¬ Writes exLayout exProg u (exLayout.plh 3)) := by
+    refine ⟨?_, ?_⟩ <;> intro u ⟨sec, hs, hw⟩ <;>
+    · match u with
+      | 0 | 1 | 2 =>
+        simp only [exProg, List.mem_cons, List.not_mem_nil, or_false] at hs
+        rcases hs with rfl | rfl | rfl | rfl <;>
+          simp only [writesOf, exLayout, if_true, List.mem_cons, List.not_mem_nil, or_false, Bool.false_eq_true, if_false] at hw <;>
+          first | (exfalso; exact hw) | (rcases hw with hw | hw <;> simp at hw) | simp at hw
+      | u + 3 => simp [exProg] at hs
+  rw [hres nw.1 nw.2]
+  exact callAt_ret exLayout exMocked 3 a' 9 (fun _ => rfl) (by simp [exMocked, upd])
+
 /-- a concrete interleaving with lock contention (thread 1 is scheduled while thread 0 holds the lock) -/
 example : ((run exLayout exProg [0, 1, 0, 1, 0, 0, 0, 0, 1, 2, 0, 0, 0, 0, 0, 0, 0, 0, 0, 0, 0, 0, 0, 0, 0, 0, 0, 0, 0] start).calls.map (·.2.2))
     = [some (3 * 7 + 1 + 5), some (4 * 7 + 3)] := by decide
@@ -240,8 +316,8 @@ example : (solo exLayout exProg 0 40 start).text 1 = .pristine ∧ (solo exLayou
 
 /-- the class hypothesis of `quiescent_restored_builders` is met by generated programs (re-stub, origin, table, double reset) -/
 example : builderProg [1, 2] [.mock 1 (.tab 5) false, .chk, .mock 2 (.cbo 7) true, .mock 1 (.cb 3) false, .reset, .reset, .mock 2 (.ret 4) false] =
-    [.replace 1 (.tab 5) false, .apply 1, .call 1 3, .call 2 3, .replace 2 (.cbo 7) true, .apply 2, .replace 1 (.cb 3) false, .apply 1,
-     .unpatch 1, .unpatch 2, .unpatch 1, .unpatch 2, .replace 2 (.ret 4) false, .apply 2, .unpatch 1, .unpatch 2, .call 1 3, .call 2 3] := by
+    [.replace 1 (.tab 5) false, .apply 1, .call 1 3, .call 1 1, .call 2 3, .call 2 1, .replace 2 (.cbo 7) true, .apply 2, .replace 1 (.cb 3) false, .apply 1,
+     .unpatch 1, .unpatch 2, .unpatch 1, .unpatch 2, .replace 2 (.ret 4) false, .apply 2, .unpatch 1, .unpatch 2, .call 1 3, .call 1 1, .call 2 3, .call 2 1] := by
   decide
 
 end C11
